@@ -28,7 +28,7 @@ import (
 )
 
 type In struct {
-	Mode      string    `json:"mode"` // stress | cancel | close-at | dropwriter
+	Mode      string    `json:"mode"` // stress | backup | cancel | close-at | dropwriter
 	Layout    sw.Layout `json:"layout"`
 	Workers   int       `json:"workers"`
 	Seed      uint64    `json:"seed"`
@@ -45,6 +45,11 @@ type In struct {
 	Point  string `json:"point,omitempty"`
 	Occ    int    `json:"occ,omitempty"`
 	HoldMS int    `json:"hold_ms,omitempty"`
+	// backup mode: of the Workers goroutines the first Copiers call CopyTo in a loop, the next Writers
+	// write (pausing up to WriterNapUS between operations), the rest read
+	Copiers     int `json:"copiers,omitempty"`
+	Writers     int `json:"writers,omitempty"`
+	WriterNapUS int `json:"writer_nap_us,omitempty"`
 }
 
 type opRec struct {
@@ -81,6 +86,10 @@ type childOut struct {
 	Merges       int  `json:"merges"`
 	Persists     int  `json:"persists"`
 	ClosedAtHook bool `json:"closed_at_hook"`
+	CopiesOK     int  `json:"copies_ok"`   // backup mode: CopyTo calls that returned nil
+	SyncRounds   int  `json:"sync_rounds"` // backup mode: rounds in which all copiers entered CopyTo together
+	MaxFlight    int  `json:"max_flight"`  // backup mode: most CopyTo calls in progress at one moment
+	ZapRemoved   int  `json:"zap_removed"` // segment files the purger removed during the run
 }
 
 var opNames = map[string]string{
@@ -110,6 +119,20 @@ func gen(f vh.Flags, r *vrand.R, emit func(In)) {
 		}
 		emit(In{Mode: "stress", Layout: l, Workers: r.Range(5, 8), Seed: r.U64(), DelayUS: vrand.Pick(r, []int{0, 100, 400, 1500}),
 			CloseMS: r.Range(120, 700), Closers: vrand.Pick(r, []int{1, 1, 2, 3}), LateClose: r.Chance(1, 2), Preload: r.Range(10, 60)})
+	}
+	// concurrent online backups: 3-4 goroutines call CopyTo in tight loops (every other call entered
+	// together) while writers with small persister / merge-plan options and forced merges keep the
+	// merger and the purger busy (files that left the root are what removeOldZapFiles looks up in the
+	// backup reference counts); then Close
+	bopts := []int{3, 2, 3, 4}
+	nb := f.N(2, 32)
+	for k := 0; k < nb; k++ {
+		cp := 3 + k%2
+		wr := 2 + r.Intn(2)
+		emit(In{Mode: "backup", Layout: sw.Layout{Config: "scorch-disk", Opts: bopts[k%len(bopts)], Unsafe: k%2 == 1, Keep: 1},
+			Workers: cp + wr + 1, Copiers: cp, Writers: wr, WriterNapUS: vrand.Pick(r, []int{500, 2000, 4000}), Seed: r.U64(),
+			DelayUS: vrand.Pick(r, []int{0, 0, 100}), CloseMS: r.Range(900, 1400), Closers: vrand.Pick(r, []int{1, 2}), LateClose: r.Chance(1, 2),
+			Preload: r.Range(10, 40)})
 	}
 	// Close issued exactly at a rendezvous of the background loops (the goroutine at the hook is held)
 	points := []struct {
@@ -188,9 +211,18 @@ func exec1(in In) vh.Result {
 	if killed {
 		ds = append(ds, direct{Kind: "deadlock", Detail: "the child process did not finish within 150 s; stderr tail: " + clip(tail(stderr, 60), 5000)})
 	}
-	if !parsed && !killed {
+	// the runtime's own detection of unsynchronised map access ("fatal error: concurrent map writes",
+	// "concurrent map read and map write", ...: the process dies with exit status 2) is a data race
+	// that was caught in the act; any other runtime fatal error is a crash of the implementation
+	if ft, ex := fatalError(stderr); ft != "" {
+		kind, class := "fatal-error", "fatal:"+ft
+		if strings.HasPrefix(ft, "concurrent map") {
+			kind = "data-race"
+		}
+		ds = append(ds, direct{Kind: kind, Class: class, Detail: fmt.Sprintf("the child process died (exit status %d) with a runtime fatal error; stderr from there:\n%s", code, clip(ex, 6000))})
+	} else if !parsed && !killed {
 		kind := "panic"
-		if !strings.Contains(stderr, "panic:") && !strings.Contains(stderr, "fatal error:") {
+		if !strings.Contains(stderr, "panic:") {
 			kind = "child-failed"
 		}
 		if len(ds) == 0 || kind == "panic" {
@@ -236,6 +268,11 @@ func exec1(in In) vh.Result {
 		if in.Mode == "close-at" {
 			res.Hist = append(res.Hist, fmt.Sprintf("closed_at:%s=%v", in.Point, out.ClosedAtHook))
 			res.Nontrivial = out.ClosedAtHook
+		} else if in.Mode == "backup" {
+			res.Hist = append(res.Hist, fmt.Sprintf("backup:copies~%d", out.CopiesOK/20*20), fmt.Sprintf("backup:sync_rounds>=3=%v", out.SyncRounds >= 3),
+				fmt.Sprintf("backup:max_in_flight=%d", out.MaxFlight), fmt.Sprintf("backup:purger_removed_files=%v", out.ZapRemoved > 0),
+				fmt.Sprintf("backup:merges>0=%v", out.Merges > 0))
+			res.Nontrivial = out.SyncRounds >= 3 && out.MaxFlight >= 2 && out.ZapRemoved > 0 && out.PostCloseOps >= 3
 		} else {
 			res.Nontrivial = out.PostCloseOps >= 3 && out.OverlapOps >= 1
 		}
@@ -304,6 +341,26 @@ func clip(s string, n int) string {
 	return s
 }
 
+// fatalError finds a runtime "fatal error: ..." line in the child's stderr: its text and the stderr
+// from that line on (the message and the first goroutine stacks).
+func fatalError(s string) (text, excerpt string) {
+	i := -1
+	if strings.HasPrefix(s, "fatal error: ") {
+		i = 0
+	} else if j := strings.Index(s, "\nfatal error: "); j >= 0 {
+		i = j + 1
+	}
+	if i < 0 {
+		return "", ""
+	}
+	rest := s[i:]
+	line := rest
+	if j := strings.IndexByte(line, '\n'); j >= 0 {
+		line = line[:j]
+	}
+	return strings.TrimSpace(strings.TrimPrefix(line, "fatal error: ")), rest
+}
+
 // raceReport returns the first race report of the child's stderr.
 func raceReport(s string) string {
 	i := strings.Index(s, "WARNING: DATA RACE")
@@ -347,8 +404,9 @@ func main() {
 		CheckFn:   "CorrTrace.check",
 		ExplainFn: "CorrTrace.explain",
 		Rule: "stress: 5-8 goroutines issue random public operations (Index, Delete, Batch, SetInternal, Search, Search with a 0-3 ms deadline, SearchInContext cancelled after 0-500 us, Document, DocCount, FieldDict, Fields, GetInternal, Stats/StatsMap, ForceMerge via Advanced, CopyTo) on scorch-disk (4 option variants, safe/unsafe), scorch-mem and upsidedown (gtreap, moss, boltdb), with seeded delays of up to 1.5 ms at every scorch hook point; Close is issued after 120-700 ms by 1-3 concurrent closers, optionally once more afterwards, and the workers go on for at least 3 operations each after it returned; every run is a child process built with -race. " +
+			"backup (scorch-disk, small persister / merge-plan options, numSnapshotsToKeep 1): 3-4 goroutines call CopyTo to distinct directories in tight loops, every other call entered together through a gate, while 2-3 writers issue small batches, updates, deletions and forced merges (pausing up to 0.5-4 ms) and one goroutine reads; Close after 0.9-1.4 s, all go on for at least 4 operations afterwards; a runtime 'fatal error: concurrent map ...' of the child counts as a data race. " +
 			"close-at: Close is issued exactly when a background loop reaches a named hook point (persist_prepared, merge_start, persist_pick, ...) and that goroutine is held for 40 ms. cancel: n = 1100-3300 matching documents, the context is cancelled by the hit handler at its c-th call; handled hits and the result are compared with the collector model. " +
-			"Non-trivial: (stress) at least 3 operations were started after Close returned and at least one overlapped it; (close-at) Close was issued at the hook; (cancel) the search was cancelled",
+			"Non-trivial: (stress) at least 3 operations were started after Close returned and at least one overlapped it; (backup) at least 3 rounds in which all copiers entered CopyTo together, at least 2 CopyTo calls in progress at one moment, the purger removed at least one segment file during the run and at least 3 operations were started after Close returned; (close-at) Close was issued at the hook; (cancel) the search was cancelled",
 		ShardSize: 4,
 		Workers:   2,
 	}, gen, exec1)
